@@ -25,7 +25,8 @@ structure Acc where
   respAt : List (Nat × Nat) := []
   deriving Repr
 
-def reqOf (op : String) : Option Nat := if op.startsWith "a" then (op.drop 1).toString.toNat? else none
+def reqOf (op : String) : Option Nat :=
+  if op.startsWith "a" || op.startsWith "b" || op.startsWith "c" then (op.drop 1).toString.toNat? else none
 
 def handledOf (res : String) : Option Nat := if res.startsWith "h" then (res.drop 1).toString.toNat? else none
 
@@ -82,7 +83,36 @@ def verdict (progs res : List (List String)) (a : Acc) : String :=
     | some (k, _) => s!"bad lost Ask {k} timed out although Response for it had returned before its deadline"
     | none => "ok"
 
+/-! ### position-based reading of a trace (used for the grain path, whose callers have more steps per Ask)
+
+The n-th executed select step of a caller thread (`selLabel`, not `!blocked`) belongs to its n-th Ask; the n-th executed
+`CAS:responseClosed` of the worker belongs to its n-th non-empty `h`. -/
+
+def nthPositions (tr : List String) (tid : Nat) (lab : String) : List Nat :=
+  ((tr.zipIdx).filterMap fun (e, pos) => if e == s!"{tid}:{lab}" then some pos else none)
+
+def judgeBy (selLabel : String) (progs res : List (List String)) (tr : List String) : String :=
+  let perThread := (progs.zipIdx).zip res
+  let selectAt : List (Nat × Nat) := (perThread.map fun ((p, tid), _) =>
+    ((p.filterMap reqOf).zip (nthPositions tr tid selLabel))).flatten
+  let respAt : List (Nat × Nat) := (perThread.map fun ((_, tid), r) =>
+    ((r.filterMap handledOf).zip (nthPositions tr tid "CAS:responseClosed"))).flatten
+  verdict progs res { ts := [], selectAt := selectAt, respAt := respAt }
+
+def judgeGrain (case out : String) : String :=
+  if out.startsWith "HANG-skipped" then "ok skipped"
+  else if out.startsWith "HANG" then "bad hang an Ask never returned: a logical thread blocked outside every schedule point"
+  else if out.startsWith "CRASH" || out.startsWith "panic" then "bad crash " ++ out
+  else match case.splitOn "|", out.splitOn "|" with
+    | [_, progs, _], [tr, rs, _] =>
+      let progs := (progs.splitOn ";").map words
+      let res := ((rs.trimAscii.toString.drop 1).toString.splitOn ";").map fun r => (r.trimAscii.toString.splitOn ",")
+      let tr := (words tr).drop 1
+      if tr.contains "cap" then "ok unfinished" else judgeBy "Add:len" progs res tr
+    | _, _ => "bad unparsable " ++ out
+
 def judge (case out : String) : String :=
+  if case.startsWith "gask" then judgeGrain case out else
   if out.startsWith "HANG-skipped" then "ok skipped"
   else if out.startsWith "HANG" then "bad hang an Ask never returned: a logical thread blocked outside every schedule point"
   else if out.startsWith "CRASH" || out.startsWith "panic" then "bad crash " ++ out
